@@ -647,11 +647,25 @@ impl<'a> Searcher<'a> {
                                 }
 
                                 // Check the path against the filters
+                                // libgit2 takes a path from the top of the work tree, or an absolute one: a
+                                // path relative to the current directory (`./x`, or anything when the search
+                                // starts elsewhere than at the top) would be taken for another file. The
+                                // directory is resolved, the entry's own name kept (a link is judged itself)
                                 #[cfg(feature = "git")]
                                 let pass_gitignore = !apply_gitignore
-                                    || !(git_repository.is_some() &&
-                                    git_repository.unwrap().is_path_ignored(&path)
-                                        .unwrap_or(false));
+                                    || !(git_repository.is_some() && {
+                                        let git_path = path
+                                            .parent()
+                                            .and_then(|parent| {
+                                                crate::util::canonical_path(&parent.to_path_buf()).ok()
+                                            })
+                                            .map(|dir| PathBuf::from(dir).join(entry.file_name()))
+                                            .unwrap_or(path.clone());
+                                        git_repository
+                                            .unwrap()
+                                            .is_path_ignored(&git_path)
+                                            .unwrap_or(false)
+                                    });
                                 #[cfg(not(feature = "git"))]
                                 let pass_gitignore = true;
 
